@@ -668,6 +668,12 @@ def new_atom(name, kind='input', lo=None, hi=None, val=None):
         c.assumptions.append(v >= rv(lo))
     if hi is not None:
         c.assumptions.append(v <= rv(hi))
+    if kind == 'input':
+        # Ackermann congruence between input angles: equal (opposite) values have equal (mirrored) pairs
+        for n2, (v2, s2, c2) in c.atoms.items():
+            if n2 != nm and c.atom_meta[n2]['kind'] == 'input':
+                c.assumptions.append(z3.Implies(v == v2, z3.And(s == s2, co == c2)))
+                c.assumptions.append(z3.Implies(v == -v2, z3.And(s == -s2, co == c2)))
     sv = cv = None
     if val is not None:
         sv, cv = _math.sin(val), _math.cos(val)
